@@ -185,6 +185,21 @@ def run_property(pid, tier, seed, replay_path=None):
             known_sigs.append(entry["signature"])
         # a finding that no longer reproduces suppresses nothing
 
+    # replay tier: committed regression cases (minimal inputs of repaired findings, boundary cases) run before any generation
+    corpus_fails = {}
+    corpus_n = 0
+    cdir = os.path.join(HERE, "corpus", pid)
+    if os.path.isdir(cdir):
+        for fn in sorted(os.listdir(cdir)):
+            if not fn.endswith(".json"):
+                continue
+            with open(os.path.join(cdir, fn)) as f:
+                body = json.load(f)
+            corpus_n += 1
+            for sig, msg in mod.replay(body["case"]):
+                if sig not in known_sigs:
+                    corpus_fails[f"corpus:{fn[:-5]}:{sig}"] = (0, f"regression case corpus/{pid}/{fn} ({body.get('what', '')}): {msg}", body["case"])
+
     specs = mod.shards(tier)
     tasks = [(modname, pid, tier, seed, spec, known_sigs) for spec in specs]
     results = run_pool(tasks, getattr(mod, "PROCS", None))
@@ -193,10 +208,11 @@ def run_property(pid, tier, seed, replay_path=None):
     nontrivial = set()
     classes = collections.Counter()
     samples = []
-    failures = {}
+    failures = dict(corpus_fails)
     known_hits = collections.Counter()
     excluded = collections.Counter()
-    extra = {}
+    extra = {"corpus_cases_replayed": corpus_n}
+    total["evaluations"] += corpus_n
     for status, res in results:
         if status != "ok":
             sys.stderr.write(res)
